@@ -262,6 +262,14 @@ Theorem import_accepted_chains_exact : forall m b t t', NoDup (map cname (filter
 Proof. exact import_ok_chains. Qed.
 Print Assumptions import_accepted_chains_exact.
 
+(* import_idempotent_or_refused, the "never duplicates" half for EVERY mode: a file with at least one dataset that was
+   accepted once is never accepted again (by any mode), so a repeated import cannot duplicate rows or records; what the
+   refusal leaves is import_refused_registry_unchanged / import_refused_stored_only_lost (and, for the copying modes, the
+   destroyed artifacts of import_idempotent_or_refused_refuted) *)
+Theorem import_repeat_refused : forall m m' b t t', import_ m b t = (t', Ok) -> b_dsets b <> [] -> snd (import_ m' b t') <> Ok.
+Proof. exact import_twice_refused. Qed.
+Print Assumptions import_repeat_refused.
+
 (* ---- acceptance *)
 (* import_into_empty_accepted: the export of a well-formed request on a well-formed source is ACCEPTED by an empty target,
    in every mode.  `wf rank src` are the invariants of a repository built through the public API (C01-C04): dataset ids
@@ -317,7 +325,8 @@ Qed.
 Example x_request_wf : well_formed_request [1; 2; 3; 4] [2; 3; 4; 5] x_src.
 Proof.
   split; [|split; [|split]].
-  - intros n H. split_in H; subst; eexists; (split; [|reflexivity]); simpl; tauto.
+  - intros n H. split_in H; subst; [exists (D 1 0 0 0) | exists (D 2 0 1 0) | exists (D 3 1 0 1) | exists (D 4 1 2 1)];
+      (split; [simpl; tauto | reflexivity]).
   - intros d [H _]. split_in H; subst; vm_compute; discriminate.
   - intros c H. split_in H; subst; reflexivity.
   - intros c x _ Hc Hx. chained_name c Hc.
